@@ -262,8 +262,11 @@ pub fn run(ctx: &Ctx, focus: &str) -> Result<()> {
 				for f in &l.feats {
 					let mut m: BTreeMap<Vec<u8>, String> = BTreeMap::new();
 					for p in f.tags.chunks(2) { m.insert(l.keys[p[0] as usize].as_bytes().to_vec(), dump_gval(&l.vals[p[1] as usize])); }
-					if let Some(idv) = m.get(b"tid".as_slice()).cloned() {
-						let idtxt = idv[1..].to_string();          // "u3" -> "3"
+					let mut idg: Option<&GVal> = None;
+					for p in f.tags.chunks(2) { if l.keys[p[0] as usize] == "tid" { idg = Some(&l.vals[p[1] as usize]); } }
+					if let Some(idv) = idg {
+						// the id is compared as text, as GeoValue's Display prints it
+						let idtxt = match idv { GVal::Str(s) => s.clone(), GVal::Bool(b) => b.to_string(), GVal::UInt(u) => u.to_string(), GVal::Int64(z) | GVal::SInt(z) => z.to_string(), GVal::F32(b) => f32::from_bits(*b).to_string(), GVal::F64(b) => f64::from_bits(*b).to_string() };
 						if let Some(row) = rows.iter().find(|r| r.0.to_string() == idtxt) {
 							let mut newp: BTreeMap<Vec<u8>, String> = BTreeMap::new();
 							if include { newp.insert(b"id".to_vec(), format!("u{}", row.0)); }
